@@ -95,6 +95,8 @@ pub struct MonState {
     pub quote: Option<(u128, u128, u128, u128, u128)>,
     /// SimulateSwapOperations answer taken before a route: (return amount, pools pairwise distinct)
     pub route_quote: Option<(u128, bool)>,
+    /// the last REJECTED two-sided deposit that carried a liquidity tolerance: (line with the tolerance blanked, tolerance)
+    pub rejected_tol_deposit: Option<(String, u128)>,
 }
 
 /// queries an instant before a transaction executes: what the monitors compare the execution with (taken by the
@@ -337,6 +339,26 @@ pub fn tx_monitors(h: &Hist, ms: &mut MonState, b: &Obs, line: &str, res: &str, 
                 }
             }
         }
+        // C16: an accepted CreatePool was paid exactly the creation fee plus the token-factory fees, the creation fee went to
+        // the fee collector, the token-factory fee was consumed, and the pool manager kept nothing
+        if ok && tx.kind == "create" {
+            if let Ok(cfg) = h.w.app.wrap().query_wasm_smart::<mantra_dex_std::pool_manager::Config>(h.w.a("pm"), &mantra_dex_std::pool_manager::QueryMsg::Config {}) {
+                let fc = h.w.n(cfg.fee_collector_addr.as_str());
+                let cfee = (h.w.cd(&cfg.pool_creation_fee.denom), cfg.pool_creation_fee.amount.u128());
+                let mut s_ = String::new();
+                let mut k = 0;
+                for d in BASE_DENOMS.iter() {
+                    let attached: u128 = tx.funds.iter().filter(|c| c.0 == *d).map(|c| c.1).sum();
+                    let due_c = if cfee.0 == *d { cfee.1 } else { 0 };
+                    let due_tf: u128 = h.w.cfg.tf_fees.iter().filter(|c| c.denom == *d).map(|c| c.amount.u128()).sum();
+                    let (ds, dfc, dpm) = (delta(b, a, &tx.sender, d), delta(b, a, &fc, d), delta(b, a, "pm", d));
+                    if attached > 0 || due_c > 0 || due_tf > 0 || ds != 0 || dfc != 0 || dpm != 0 {
+                        s_ += &format!(" {} {} {} {} {} {} {}", d, attached, due_c, due_tf, ds, dfc, dpm); k += 1;
+                    }
+                }
+                out.push(format!("mon_pool_create {} {} {}{}", (fc == tx.sender) as u8, (fc == "pm") as u8, k, s_));
+            }
+        }
         // LP supply changes only through deposits and withdrawals
         for p in a.pools.iter() {
             let id = &p.pool_info.pool_identifier;
@@ -568,6 +590,20 @@ pub fn tx_monitors(h: &Hist, ms: &mut MonState, b: &Obs, line: &str, res: &str, 
             }
         }
     }
+    // C13, monotonicity: a deposit accepted under a tolerance t' right after the SAME deposit (sender, funds, pool, options,
+    // state — a rejected message changes nothing) was refused under a larger tolerance t
+    if tx.contract == "pm" && tx.kind == "provide" && tx.funds.len() >= 2 {
+        let blank = { let mut t: Vec<&str> = line.split_whitespace().collect(); let i = 3 + 2 * tx.funds.len() + 3; if i < t.len() { t[i] = "?"; } t.join(" ") };
+        let tol: Option<u128> = tx.args.get(1).and_then(|x| x.parse().ok());
+        if ok {
+            if let (Some((prev, t_big)), Some(t_small)) = (ms.rejected_tol_deposit.as_ref(), tol) {
+                if *prev == blank && t_small < *t_big && *t_big <= 1_000_000_000_000_000_000 && !ms.fault_active {
+                    out.push(format!("mon_tol_monotone {} {}", t_big, t_small));
+                }
+            }
+            ms.rejected_tol_deposit = None;
+        } else if let Some(t) = tol { if !ms.fault_active { ms.rejected_tol_deposit = Some((blank, t)); } }
+    } else if !line.starts_with("q ") { ms.rejected_tol_deposit = None; }
     if tx.contract == "fm" {
         if tx.kind == "claim" && tx.funds.is_empty() {
             let ua = h.w.astr(&tx.sender);
@@ -679,12 +715,30 @@ pub fn tx_monitors(h: &Hist, ms: &mut MonState, b: &Obs, line: &str, res: &str, 
                 }
             }
         }
+        // C11 / C20: an accepted CreateFarm leaves the farm it describes on record (its owner, LP token, reward) — also when it
+        // closed an expired farm on the way and that farm's refund failed (the tolerated failure affects no other farm)
+        if ok && tx.kind == "createfarm" {
+            let lp = h.w.rd(&tx.args[0]);
+            let ad = h.w.rd(&tx.args[3]);
+            let aa: u128 = tx.args[4].parse().unwrap_or(0);
+            let sender_a = h.w.astr(&tx.sender);
+            let found = a.farms.iter().any(|f| f.lp_denom == lp && f.farm_asset.denom == ad && f.farm_asset.amount.u128() == aa && f.owner.as_str() == sender_a
+                && f.claimed_amount.is_zero()
+                && !b.farms.iter().any(|g| g.identifier == f.identifier && g.owner == f.owner && g.lp_denom == f.lp_denom && g.start_epoch == f.start_epoch && g.farm_asset == f.farm_asset && g.claimed_amount == f.claimed_amount && g.preliminary_end_epoch == f.preliminary_end_epoch));
+            out.push(format!("mon_farm_recorded {} {}", found as u8, ms.fault_active as u8));
+        }
         // C11: after an accepted CreateFarm the LP token has at most the configured number of farms
         if ok && tx.kind == "createfarm" {
             if let Some(c) = h.w.app.wrap().query_wasm_smart::<mantra_dex_std::farm_manager::Config>(h.w.a("fm"), &mantra_dex_std::farm_manager::QueryMsg::Config {}).ok() {
                 let lp = h.w.rd(&tx.args[0]);
                 let n = a.farms.iter().filter(|f| f.lp_denom == lp).count();
                 out.push(format!("mon_farm_limit {} {}", n, c.max_concurrent_farms));
+            }
+        }
+        // C11: an expansion is accepted only before the farm ends
+        if ok && tx.kind == "expandfarm" {
+            if let (Some(f), Some(cur)) = (b.farms.iter().find(|f| f.identifier == tx.args[5]), b.epoch) {
+                out.push(format!("mon_farm_expand_time {} {}", cur, f.preliminary_end_epoch));
             }
         }
         // C11: an expansion adds exactly the attached amount and extends the end by amount / emission rate epochs
